@@ -252,6 +252,30 @@ def b_interp(inner, n_base, n_rows, n_cols, k=2):
     return f
 
 
+def b_interp_asym(inner, n_base, n, k=2):
+    """square n x n operator W_l B W_r^T with DIFFERENT left/right interpolation indices and values"""
+    def f(g, b):
+        return _ops().InterpolatedLinearOperator(
+            inner(g, b), g.longs(*b, n, k, hi=n_base), g.ints(*b, n, k, nonzero=True),
+            g.longs(*b, n, k, hi=n_base), g.ints(*b, n, k, nonzero=True))
+    return f
+
+
+def b_interp_sym(inner, n_base, n, k=2):
+    """the SKI structure W B W^T (same left and right interpolation); asymmetry only arises by indexing it"""
+    def f(g, b):
+        ii, vv = g.longs(*b, n, k, hi=n_base), g.ints(*b, n, k, nonzero=True)
+        return _ops().InterpolatedLinearOperator(inner(g, b), ii, vv, ii.clone(), vv.clone())
+    return f
+
+
+def b_chol_upper(n=3):
+    def f(g, b):
+        t = g.ints(*b, n, n).triu()
+        return _ops().CholLinearOperator(_ops().TriangularLinearOperator(t, upper=True), upper=True)
+    return f
+
+
 def b_interp_default(inner):
     def f(g, b):
         return _ops().InterpolatedLinearOperator(inner(g, b))
@@ -396,6 +420,35 @@ def nested_catalogue():
     D3, D2 = b_dense(3), b_dense(2)
     T3 = b_toeplitz(3)
     return [
+        # --- every branch of every `_diagonal` override must be reached by a SQUARE entry
+        ("Dense[sq]", b_dense(4), {}),
+        ("Zero[sq]", b_zero(3, 3), {}),
+        ("Chol(upper)", b_chol_upper(3), {}),
+        ("ConstantMul(Dense)[sq]", b_constmul(b_dense(3)), {}),
+        ("SumBatch(Dense)[sq]", b_sumbatch(b_dense(3), 2), {}),
+        ("BatchRepeat(Dense)[sq,mixed]", b_batchrepeat(b_dense(3), rep_split_c), {}),
+        ("Matmul(Dense3x2,Dense2x3)", b_matmul(b_dense(3, 2), b_dense(2, 3)), {}),
+        ("Matmul(Toeplitz,Dense)", b_matmul(T3, D3), {}),
+        ("Matmul(Dense,Diag)", b_matmul(D3, b_diag(3)), {}),
+        ("Cat(Dense2x5,Dense3x5;rows)[sq]", b_cat([b_dense(2, 5), b_dense(3, 5)], -2), {"cat": (-2, (2, 3))}),
+        ("Cat(Dense5x2,Dense5x3;cols)[sq]", b_cat([b_dense(5, 2), b_dense(5, 3)], -1), {"cat": (-1, (2, 3))}),
+        ("Cat(Dense,Dense;batch-1)[sq]", b_cat([D3, D3], "b-1"), {"catbatch": "b-1", "needbatch": True}),
+        ("Cat(Dense,Dense;batch0)[sq]", b_cat([D3, D3], "b0"), {"catbatch": "b0", "needbatch": True}),
+        ("Kernel(lin)[sq]", b_kernel("lin", 4, 4), {}),
+        ("Kernel(scaled)[sq]", b_kernel("scaled", 3, 3), {}),
+        ("Kernel(multitask2x2)[sq]", b_kernel_mt(3, 3, 2, 2, 2), {"kernel_mt": (2, 2)}),
+        ("Interpolated(Root(dense))[asym]", b_interp_asym(b_root(4, 2), 4, 6), {}),
+        ("Interpolated(Root(dense))[sym]", b_interp_sym(b_root(4, 2), 4, 7), {}),
+        ("Interpolated(LowRankRoot)[asym]", b_interp_asym(b_lowrankroot(4, 2), 4, 5), {}),
+        ("Interpolated(LowRankRoot)[sym]", b_interp_sym(b_lowrankroot(4, 2), 4, 6), {}),
+        ("Interpolated(Chol(lower))[asym]", b_interp_asym(b_chol(3), 3, 5), {}),
+        ("Interpolated(Chol(upper))[asym]", b_interp_asym(b_chol_upper(3), 3, 5), {}),
+        ("Interpolated(Root(Kron))[asym]", b_interp_asym(b_root(inner=b_kron(D2, D2)), 4, 5), {}),
+        ("Interpolated(Dense)[asym,sq]", b_interp_asym(b_dense(4), 4, 5), {}),
+        ("Root(dense)[sq-root]", b_root(3, 3), {}),
+        ("Masked(Root(dense))[eq]", b_masked(b_root(4, 2), [True, False, True, True], [True, False, True, True]), {}),
+        ("Sum(Interpolated(Root(dense))[asym],Diag)", b_sum(b_interp_asym(b_root(4, 2), 4, 5), b_diag(5)), {}),
+        ("ConstantMul(Interpolated(Root(dense))[asym])", b_constmul(b_interp_asym(b_root(4, 2), 4, 5)), {}),
         ("Sum(Kron(Dense2,Dense2),Dense4)", b_sum(b_kron(D2, D2), b_dense(4)), {}),
         ("Sum(Toeplitz,Diag,Dense)", b_sum(T3, b_diag(3), D3), {}),
         ("BlockDiag(Toeplitz)", b_block(T3, 2), {"block": ("diag", 2, 3)}),
